@@ -40,9 +40,16 @@ static inline void observe(int fn, int phase, void **args) {
     tl_obs(tl_obs_ctx, fn, phase, args);
     tl_in_obs--;
 }
+// The linear LWE operations are called in long streaks (n*t row subtractions per key switch, one copy per key row on
+// import): yield on the first calls of a streak (the gate-level combination) and then on every 128th only.
+static thread_local uint32_t tl_lin_streak = 0;
 static inline void yield_at(int site) {
     g_site_calls[site]++;
     if (tl_in_obs) return;
+    if (site == Y_LWE_LIN) {
+        uint32_t s = ++tl_lin_streak;
+        if (s > 4 && (s & 127)) return;
+    } else tl_lin_streak = 0;
     sim_yield(site);
 }
 
